@@ -586,7 +586,10 @@ pub fn ts_prolog() -> String {
 
   collector.push_str("const ");
   FunctionName::STR_TO_INT.write_encoded(&mut collector, heap, table);
-  collector.push_str(" = ([, v]: _Str): number => parseInt(v as unknown as string, 10);\n");
+  // Same contract as the WebAssembly runtime: an optional `-` followed by digits, anything else is 0.
+  collector.push_str(
+    " = ([, v]: _Str): number => { const s = v as unknown as string; for (let i = s[0] === '-' ? 1 : 0; i < s.length; i++) { const c = s.charCodeAt(i); if (c < 48 || c > 57) return 0; } return parseInt(s, 10) | 0; };\n",
+  );
 
   collector.push_str("const ");
   FunctionName::STR_FROM_INT.write_encoded(&mut collector, heap, table);
